@@ -1045,25 +1045,62 @@ Proof.
   rewrite H2, H3. apply safe_quote_plus. exact H1.
 Qed.
 
-(* a value made of unreserved characters is carried unchanged by every coverage case ... *)
-Theorem coverage_stable name s n :
-  quote_stable s = true -> template_nth [] n [(name, sval s)] = Some [(name, sval s)].
+(* no style serializer for the path container: every case is the same function of the template *)
+Lemma template_step_pure defs tmpl : ser3 defs = [] -> template_step defs tmpl = omap (fun t2 => (tmpl, stringify_item t2)) (quote_all tmpl).
 Proof.
-  intros H. induction n as [|n IH]; cbn [template_nth]; unfold template_step, serialize3, ser3;
-    cbn [flat_map composed fold_right obind quote_all sval];
-    rewrite (stable_quote_value s H); cbn [obind omap map fst snd stringify_v js_str sval]; [reflexivity | exact IH].
+  intros H. unfold template_step, serialize3. rewrite H. cbn [composed fold_right obind].
+  destruct (quote_all tmpl); reflexivity.
 Qed.
 
-(* ... any other value is quoted once more by each case: the second case built from a template does not carry it *)
-Lemma coverage_requote_refuted :
-  exists name s out1 out2 q2,
-    template_nth [] 0 [(name, sval s)] = Some out1 /\ obind (d_get name out1) as_str = quote_value s
-    /\ template_nth [] 1 [(name, sval s)] = Some out2 /\ d_get name out2 = Some (sval q2)
-    /\ pct_decode_form q2 <> Some s /\ pct_decode q2 <> Some s.
+Theorem coverage_pure defs n tmpl : ser3 defs = [] -> template_nth defs n tmpl = template_nth defs 0 tmpl.
 Proof.
-  exists [105;100], [97;32;98], [([105;100], sval [97;43;98])], [([105;100], sval [97;37;50;66;98])], [97;37;50;66;98].
-  repeat split; try (vm_compute; reflexivity); vm_compute; discriminate.
+  intros H. induction n as [|n IH]; [reflexivity|].
+  cbn [template_nth]. rewrite template_step_pure by exact H.
+  destruct (quote_all tmpl) as [t2|] eqn:E; cbn [omap]; [|reflexivity].
+  rewrite IH. cbn [template_nth]. rewrite template_step_pure by exact H. rewrite E. reflexivity.
 Qed.
 
-Example coverage_stable_nonvacuous : quote_stable [97; 46; 98; 45; 49; 126] = true.
-Proof. reflexivity. Qed.
+(* ... and carries the quoted value, which a form decoder maps back to the value of the template *)
+Theorem coverage_case_roundtrip name s n out :
+  template_nth [] n [(name, sval s)] = Some out ->
+  exists q, out = [(name, sval q)] /\ quote_value s = Some q /\ pct_decode_form q = Some s.
+Proof.
+  rewrite (coverage_pure [] n _ eq_refl). cbn [template_nth]. rewrite template_step_pure by reflexivity.
+  cbn [quote_all sval]. destruct (quote_value s) as [q|] eqn:E; cbn [omap]; [|discriminate].
+  intros H; injection H as <-. exists q. repeat split. apply quote_value_form_roundtrip. exact E.
+Qed.
+
+Lemma coverage_case_defined name s n q :
+  quote_value s = Some q -> template_nth [] n [(name, sval s)] = Some [(name, sval q)].
+Proof.
+  intros E. rewrite (coverage_pure [] n _ eq_refl). cbn [template_nth]. rewrite template_step_pure by reflexivity.
+  cbn [quote_all sval]. rewrite E. reflexivity.
+Qed.
+
+(* the sentinel (rule before 06d349e9) and the present rule told apart by the template id = a b%c *)
+Lemma coverage_requote_sentinel_refuted :
+  let tmpl := [([105;100], sval [97;32;98;37;99])] in
+  let q1 := [97;43;98;37;50;53;99] in                    (* a+b%25c *)
+  let q2 := [97;37;50;66;98;37;50;53;50;53;99] in        (* a%2Bb%2525c *)
+  template_nth_inplace [] 0 tmpl = Some [([105;100], sval q1)]
+  /\ template_nth_inplace [] 1 tmpl = Some [([105;100], sval q2)]
+  /\ pct_decode_form q2 <> Some [97;32;98;37;99]
+  /\ template_nth [] 0 tmpl = Some [([105;100], sval q1)]
+  /\ template_nth [] 1 tmpl = Some [([105;100], sval q1)].
+Proof. cbv zeta. repeat split; try (vm_compute; reflexivity). vm_compute. discriminate. Qed.
+
+(* with a style serializer for the path container the serializer still assigns into the template:
+   label array [a; b] is .a%2Cb in the first case and ..a%2Cb in the second *)
+Definition label_arr_def : definition :=
+  {| d_name := [105;100]; d_in := LPath; d_style := StLabel; d_explode := Some false; d_type := TArray; d_content := CtNone |}.
+Lemma coverage_serializer_reapplied_refuted :
+  let tmpl := [([105;100], VArr [PStr [97]; PStr [98]])] in
+  template_nth [label_arr_def] 0 tmpl = Some [([105;100], sval [46;97;37;50;67;98])]
+  /\ template_nth [label_arr_def] 1 tmpl = Some [([105;100], sval [46;46;97;37;50;67;98])]
+  /\ obind (pct_decode [46;46;97;37;50;67;98]) (dec_value (FLabelArr false) [105;100]) <> Some (CArr [[97]; [98]]).
+Proof. cbv zeta. repeat split; try (vm_compute; reflexivity). vm_compute. discriminate. Qed.
+
+Example coverage_nonvacuous :
+  template_nth [] 3 [([105;100], sval [97;32;98;37;99]); ([107], VPrim (PInt 5))]
+  = Some [([105;100], sval [97;43;98;37;50;53;99]); ([107], sval [53])].
+Proof. vm_compute. reflexivity. Qed.
